@@ -8,6 +8,9 @@ pub fn hdr(w: u16, h: u16, fmt: &Fmt) -> Header {
     let mut hd = Header::new(w, h, fmt.depth());
     if let Fmt::Indexed(t) = fmt {
         hd.transparent = *t;
+        // the header's (redundant, deprecated) colour count deliberately disagrees with every palette the
+        // generators write: nothing may depend on it
+        hd.ncolors = 250;
     }
     hd
 }
@@ -78,6 +81,17 @@ pub fn tm_cel(layer: u16, x: i16, y: i16, op: u8, w: u16, h: u16, tiles: Vec<u32
 pub fn tileset(id: u32, n: u32, tw: u16, th: u16, pixels: Vec<u8>, name: &str) -> Tileset {
     Tileset { id, flags: 2 | 4, ntiles: n, tw, th, base_index: 1, reserved: [0; 14], name: Str::new(name), ext_file: 0, ext_tileset: 0, pixels, compressed_len: None, z: Zlib::Level(6) }
 }
+/// Tile pixels in which tile 0 has pixels of its own as well (nothing in the format forbids it; a tile
+/// placed in a map is drawn by its pixels, whatever its id).  Only for maps that cover the canvas: the
+/// properties call tile 0 "the empty tile" for positions outside the stored area.
+pub fn tile_pixels_full(fmt: &Fmt, n: u32, tw: u16, th: u16, salt: u32, index_range: (u8, u8)) -> Vec<u8> {
+    let mut out = Vec::new();
+    for t in 0..n {
+        out.extend(pixels(fmt, tw as usize, th as usize, salt + t * 7, index_range));
+    }
+    out
+}
+
 /// Tile pixels for a tileset: tile 0 fully transparent, others distinct.
 pub fn tile_pixels(fmt: &Fmt, n: u32, tw: u16, th: u16, salt: u32, index_range: (u8, u8)) -> Vec<u8> {
     let per = tw as usize * th as usize;
